@@ -69,6 +69,11 @@ def to_real(I, v, mode='plain'):
             return _bind(I, v)
         if isinstance(v, (SSet, SList, SMap)):
             return _bind(I, v, expanding=True)
+        if type(v).__name__ in ('_LazyComp', '_ReplayColl', '_ReplayView') \
+                or (isinstance(v, Native) and hasattr(v, 'sql_members')):
+            # a generator / lazily built collection used as the right-hand
+            # side of IN: bound as one expanding parameter
+            return _bind(I, v, expanding=True)
         if hasattr(v, 'concrete') and hasattr(v, 'd'):      # dict view
             if isinstance(v.d, VDict):
                 return [to_real(I, x, mode) for x in v.concrete(I)]
